@@ -1474,8 +1474,12 @@ class Interp:
             if attr == "copy":
                 return lambda: obj
         if isinstance(obj, IdxArr):
-            if attr == "copy":
-                return lambda: obj
+            if attr in ("copy", "reshape", "flatten", "ravel"):
+                return lambda *a, **k: obj
+            if attr == "size":
+                return obj.n
+            if attr == "shape":
+                return (obj.n,)
         if isinstance(obj, Closure) and attr in ("__name__",):
             return getattr(obj.node, "name", "lambda")
         self.fail(node, f"attribute `{attr}` of {obj!r} is not modelled")
